@@ -7,9 +7,11 @@
 package main
 
 import (
+	"bytes"
 	"fmt"
 	"go/ast"
 	"go/parser"
+	"go/printer"
 	"go/token"
 	"os"
 	"path/filepath"
@@ -441,6 +443,26 @@ func condTexts(p *pkgInfo, d *ast.FuncDecl) []string {
 	return out
 }
 
+// the body of a function as gofmt prints it: one entry per non-empty, non-comment line, indentation removed
+func bodyLines(p *pkgInfo, d *ast.FuncDecl) []string {
+	var out []string
+	if d == nil || d.Body == nil {
+		return out
+	}
+	var buf bytes.Buffer
+	if err := printer.Fprint(&buf, p.fset, d.Body); err != nil {
+		return []string{"unprintable"}
+	}
+	for _, l := range strings.Split(buf.String(), "\n") {
+		l = strings.TrimSpace(l)
+		if l == "" || strings.HasPrefix(l, "//") {
+			continue
+		}
+		out = append(out, l)
+	}
+	return out
+}
+
 func emitCallOrders(p *pkgInfo) string {
 	var b strings.Builder
 	b.WriteString("/- GENERATED by extract from /repo's current source: do not edit. -/\nnamespace Rapid.Generated\n\n")
@@ -457,6 +479,10 @@ func emitCallOrders(p *pkgInfo) string {
 	fmt.Fprintf(&b, "def order_checkFuzz : List String := %s\n", leanList(stmtTags(p, p.funcs["checkFuzz"])))
 	for _, fn := range []string{"removeGroups", "minimizeBlocks", "lowerFloatHack", "removeGroupsAndLower", "sortGroups", "removeGroupSpans", "shrink", "accept"} {
 		fmt.Fprintf(&b, "def conds_%s : List String := %s\n", fn, leanList(condTexts(p, p.funcs["shrinker."+fn])))
+	}
+	// the loop bodies that the generators put around repeat.more / repeat.reject: every statement, as gofmt prints it
+	for _, fn := range []string{"sliceGen.value", "mapGen.value", "stringGen.value"} {
+		fmt.Fprintf(&b, "def body_%s : List String := %s\n", strings.ReplaceAll(fn, ".", "_"), leanList(bodyLines(p, p.funcs[fn])))
 	}
 	fmt.Fprintf(&b, "def conds_minimize : List String := %s\n", leanList(condTexts(p, p.funcs["minimize"])))
 	fmt.Fprintf(&b, "def conds_minimizer_accept : List String := %s\n", leanList(condTexts(p, p.funcs["minimizer.accept"])))
